@@ -6,7 +6,7 @@ open Driver_base
      - constructing the Number, deriving views, and in v3 creating iterators consult nothing;
      - never more calls than |D| + 1 (nothing after the end marker), never re-entrant;
      - calls <= (highest position asked about or delivered so far) + 1 + 1000. *)
-let z2i = small_int_of_z
+let z2i = clamp_int_of_z
 
 let parse_ops_with_cnt a =
   (* returns a list of `Op of hop | Cnt` in order, using Hist.parse_hops token by token *)
